@@ -18,6 +18,113 @@ use tree_sitter_graph::{ExecutionConfig, ExecutionError, NoCancellation};
 
 pub struct C11;
 
+/// A function the embedder registers: returns its argument, and is itself a cancellation point
+/// (it polls the flag of the execution and passes the signal on with `?`).
+struct PollingIdentity(std::sync::Arc<CountingFlag>);
+
+impl tree_sitter_graph::functions::Function for PollingIdentity {
+    fn call(&self, _graph: &mut Graph, _source: &str, parameters: &mut dyn tree_sitter_graph::functions::Parameters) -> Result<tree_sitter_graph::graph::Value, ExecutionError> {
+        let v = parameters.param()?;
+        parameters.finish()?;
+        tree_sitter_graph::CancellationFlag::check(&*self.0, "host function")?;
+        Ok(v)
+    }
+}
+
+const HOST_PROGRAMS: &[&str] = &[
+    "(identifier) @id { node n attr (n) a = (zq-poll (source-text @id)) let v = (zq-poll 1) if (zq-poll #true) { attr (n) b = (zq-poll v) } scan (zq-poll \"ab\") { \"a\" { print (zq-poll $0) } \"b\" { } } for x in [(zq-poll 1), 2] { print (zq-poll x) } }",
+    "(module) @m { node @m.top attr (@m.top) k = (zq-poll \"top\") }\n(identifier) @id { let @id.up = (zq-poll (node)) node n edge n -> (zq-poll @id.up) attr (n -> @id.up) w = (zq-poll (plus 1 (zq-poll 2))) }",
+    "(identifier) @id { let xs = [ (zq-poll y) for y in [1, 2, (start-row @id)] ] node n attr (n) xs = xs, s = { (zq-poll z) for z in xs } print (zq-poll xs) }",
+];
+
+/// programs whose expressions call a host function that polls the execution's own flag: a
+/// signal raised inside the function is the cancellation error of the run like any other
+fn host_function_family(rng: &mut Rng, out: &mut Out) {
+    let text = (*rng.pick(HOST_PROGRAMS)).to_string();
+    let source = crate::gen::py::gen_any_source(rng, 3, 10);
+    let tree = parse_python(&source);
+    let ti = TreeInfo::new(&tree);
+    let file = match exec::load(&text) {
+        Loaded::Ok(f) => f,
+        _ => {
+            out.violation("C11:host-function-program-rejected", "a hand-written program was rejected at load time", json!({"dsl": text}));
+            return;
+        }
+    };
+    let no_globals = BTreeMap::new();
+    let vars = exec::make_globals(&no_globals, &|_| None);
+    for lazy in [false, true] {
+        let mode = if lazy { "lazy" } else { "strict" };
+        let run = |k: u64| {
+            let flag = std::sync::Arc::new(CountingFlag::new(k));
+            let mut functions = stdlib();
+            functions.add(tree_sitter_graph::Identifier::from("zq-poll"), PollingIdentity(flag.clone()));
+            let r = catch(|| {
+                let config = ExecutionConfig::new(&functions, &vars).lazy(lazy);
+                let mut g = Graph::new();
+                let r = file.execute_into(&mut g, &tree, &source, &config, &*flag);
+                let _ = observe_graph(&g, &ti);
+                r
+            });
+            (r, flag)
+        };
+        let (r, never) = run(u64::MAX);
+        out.eval();
+        let cj = |k: u64| json!({"dsl": text, "source": source, "mode": mode, "cancel_at_poll": k, "host_function": "zq-poll returns its argument after polling the execution's flag"});
+        match r {
+            Ok(Ok(())) => {}
+            Ok(Err(e)) => {
+                out.violation(&format!("C11:host-function-program-failed:{}", mode), &format!("uncancelled run failed: {}", e), cj(0));
+                return;
+            }
+            Err(p) => {
+                out.violation(&format!("C11:panic:{}", mode), &format!("{}: {}", p.location, p.message), cj(0));
+                return;
+            }
+        }
+        let total = never.count();
+        let inside = never.labels.lock().unwrap().get("host function").copied().unwrap_or(0);
+        if inside == 0 && ti.nodes.iter().any(|n| n.kind == "identifier") {
+            out.inconclusive("host function never polled");
+        }
+        let ks: Vec<u64> = if total <= 600 { (1..=total).collect() } else { (1..=600).map(|i| 1 + (i * total / 601)).collect() };
+        for k in ks {
+            let (r, flag) = run(k);
+            out.eval();
+            let res = match r {
+                Ok(x) => x,
+                Err(p) => {
+                    out.violation(&format!("C11:panic:{}", mode), &format!("cancelling at poll {}: panic at {}: {}", k, p.location, p.message), cj(k));
+                    return;
+                }
+            };
+            match &res {
+                Ok(()) => {
+                    out.violation(&format!("C11:cancellation-ignored:{}", mode), &format!("the flag signalled at poll {} of {} but execution returned success", k, total), cj(k));
+                    return;
+                }
+                Err(ExecutionError::Cancelled(c)) => {
+                    if format!("{}", c).contains("host function") {
+                        out.feat(&format!("cancelled_inside_a_host_function:{}", mode));
+                    }
+                }
+                Err(e) => {
+                    let info = analyse_error(e);
+                    let sig = if info.cancelled_anywhere { "cancelled-wrapped" } else { "other-error" };
+                    out.violation(&format!("C11:{}:{}", sig, mode), &format!("cancelling at poll {} of {} (polls made by a host function included) returned {}", k, total, crate::util::trunc(&info.display, 300)), cj(k));
+                    return;
+                }
+            }
+            if flag.polls_after_fail.load(std::sync::atomic::Ordering::SeqCst) > 0 || flag.count() != k {
+                out.violation(&format!("C11:polls-after-cancellation:{}", mode), &format!("the flag failed at poll {} and was polled {} more times", k, flag.count().saturating_sub(k)), cj(k));
+                return;
+            }
+        }
+        out.feat_n(&format!("cancellation_points_with_host_function:{}", mode), total);
+    }
+    out.nontrivial(crate::util::mix(&[crate::util::hash_str(&text), crate::util::hash_str(&source)]));
+}
+
 /// is `a` a prefix of `b`: nodes in creation order, attributes and edges subsets
 fn is_prefix(a: &OGraph, b: &OGraph) -> Result<(), String> {
     if a.nodes.len() > b.nodes.len() {
@@ -56,7 +163,11 @@ impl Prop for C11 {
             Tier::Thorough => 3000,
         }
     }
-    fn run_case(&self, _cfg: &RunCfg, _idx: usize, rng: &mut Rng, out: &mut Out) {
+    fn run_case(&self, _cfg: &RunCfg, idx: usize, rng: &mut Rng, out: &mut Out) {
+        if idx % 6 == 5 {
+            host_function_family(rng, out);
+            return;
+        }
         let mut gcfg = GenCfg::order_insensitive();
         gcfg.max_stanzas = 4;
         gcfg.max_stmts = 5;
